@@ -1286,7 +1286,8 @@ fn main() {
     }
     let _ = quote!();
     let _: Option<TokenStream> = None;
-    let out = json!({"fns": out_fns, "types": c.types, "consts": c.consts, "traits": c.clients, "errors": errors,
+    let timpls: Vec<Value> = c.trait_impls.iter().map(|t| json!({"trait": t.trait_name, "type": t.type_name, "assoc": t.assoc, "file": t.file})).collect();
+    let out = json!({"trait_impls": timpls, "fns": out_fns, "types": c.types, "consts": c.consts, "traits": c.clients, "errors": errors,
         "all_fn_keys": c.fns.iter().map(|f| format!("{}#{}", f.file, f.key)).collect::<Vec<_>>()});
     println!("{}", serde_json::to_string_pretty(&out).unwrap());
     if !out["errors"].as_array().unwrap().is_empty() {
